@@ -239,12 +239,13 @@ impl Median<f64> for Poisson {
     /// # Formula
     ///
     /// ```text
-    /// floor(λ + 1 / 3 - 0.02 / λ)
+    /// max(0, floor(λ + 1 / 3 - 0.02 / λ))
     /// ```
     ///
     /// where `λ` is the rate
     fn median(&self) -> f64 {
-        (self.lambda + 1.0 / 3.0 - 0.02 / self.lambda).floor()
+        // the approximation goes negative for λ < 0.0554; the support starts at 0
+        (self.lambda + 1.0 / 3.0 - 0.02 / self.lambda).floor().max(0.0)
     }
 }
 
